@@ -166,6 +166,34 @@ def _worker(args):
     prop, facet_name, shard, nshards, tier, seed, examples = args
     t0 = time.time()
     out = dict(prop=prop, facet=facet_name, shard=shard, failure=None, error=None)
+    cov = _coverage_start(prop, facet_name, shard)
+    try:
+        return _worker_body(args, out, t0)
+    finally:
+        if cov is not None:
+            cov.stop()
+            cov.save()
+
+
+def _coverage_start(prop, facet_name, shard):
+    """Diagnostic only (tools/coverage_audit.py): VERIF_COVERAGE=<dir> records which lines of the library a
+    check executes, one data file per shard.  Never set by the registered commands."""
+    d = os.environ.get("VERIF_COVERAGE")
+    if not d:
+        return None
+    import coverage
+
+    repo = os.environ.get("VERIF_REPO", "/repo")
+    cov = coverage.Coverage(
+        data_file=os.path.join(d, f"cov.{prop}.{facet_name}.{shard}.{os.getpid()}"),
+        include=[os.path.join(repo, "beyond", "*")], branch=True,
+    )
+    cov.start()
+    return cov
+
+
+def _worker_body(args, out, t0):
+    prop, facet_name, shard, nshards, tier, seed, examples = args
     if isinstance(examples, str):  # a saved regression case: replayed, bypassing Hypothesis
         return _regress_worker(prop, examples, out, t0)
     try:
